@@ -85,6 +85,13 @@ def rule_units(ctx):
         # second recognised form: the factors of the matching rows are collected, the first one is used
         comps = [(st, st.value) for st in walk_no_nested(f.node) if isinstance(st, ast.Assign) and isinstance(st.targets[0], ast.Name)
                  and isinstance(st.value, ast.ListComp) and len(st.value.generators) == 1 and norm(st.value.generators[0].iter) == "UNITS_CONVERSION_FACTORS"]
+        # third recognised form: factor = next((factor for spellings, factor in TABLE if unit in spellings)[, default])
+        first_of = [(st, st.value.args[0]) for st in walk_no_nested(f.node) if isinstance(st, ast.Assign) and isinstance(st.targets[0], ast.Name)
+                    and isinstance(st.value, ast.Call) and dotted(st.value.func) == "next" and st.value.args and isinstance(st.value.args[0], ast.GeneratorExp)
+                    and len(st.value.args[0].generators) == 1 and norm(st.value.args[0].generators[0].iter) == "UNITS_CONVERSION_FACTORS"]
+        picked = "%s[0]"
+        if not comps and first_of:
+            comps, picked = first_of, "%s"
         sp_assign = [s_ for s_ in f.body if isinstance(s_, ast.Assign) and calls_in(s_.value, "split_units")]
         if len(comps) != 1 or not sp_assign or not isinstance(sp_assign[0].targets[0], ast.Tuple):
             raise AnalysisError("to_kilometers: the look-up in UNITS_CONVERSION_FACTORS was not found (neither loop nor filtered list)")
@@ -98,7 +105,7 @@ def rule_units(ctx):
         rets_ = [r_ for r_ in walk_no_nested(f.node) if isinstance(r_, ast.Return) and r_.value is not None and m_ in norm(r_.value)]
         fact = "%s = %s; return %s" % (m_, norm(c_), [norm(r_.value) for r_ in rets_])
         ok = norm(c_.elt) == tf and [norm(i_) for i_ in g_.ifs] == ["%s in %s" % (un, tu)] and len(rets_) == 1 \
-            and norm(rets_[0].value) in ("%s * %s[0]" % (ln, m_), "%s[0] * %s" % (m_, ln))
+            and norm(rets_[0].value) in ("%s * %s" % (ln, picked % m_), "%s * %s" % (picked % m_, ln))
         ctx.ob("to_kilometers.convert", ok, fact, "return length * factor for the row whose spellings contain the unit", node=st_, func=f)
     if loop:
         lp = loop[0]
@@ -292,14 +299,15 @@ def rule_deshuffle(ctx):
     f = ctx.func(GEO, "GeoIndex.query")
     flow = Flow(f)
     cfg = flow.cfg
-    # pairs variable: the name assigned from the comprehension over the jagged result
-    pname = None
-    for st in flow.stmts:
-        if isinstance(st, ast.Assign) and isinstance(st.targets[0], ast.Name) and any(isinstance(n, ast.ListComp) for n in ast.walk(st.value)) \
-                and calls_in(st.value, "enumerate"):
-            pname = st.targets[0].id
-    if pname is None:
-        raise AnalysisError("query(): pairs array not identified")
+    pnames = []
+    for b_ in pair_builders(f, flow):
+        if b_["name"] not in pnames:
+            pnames.append(b_["name"])
+    for pname in pnames:
+        _deshuffle_one(ctx, f, flow, cfg, pname, perm_attr, "" if pname == pnames[0] else "[%s]" % pname)
+
+
+def _deshuffle_one(ctx, f, flow, cfg, pname, perm_attr, suffix):
     want = "%s[0, :] = self.%s[%s[0, :]]" % (pname, perm_attr, pname)
     alt = "%s[0] = self.%s[%s[0]]" % (pname, perm_attr, pname)
     D = set()
@@ -357,37 +365,89 @@ def rule_deshuffle(ctx):
         if isinstance(st, ast.Return) and st.value is not None and any(isinstance(n, ast.Name) and n.id == pname for n in ast.walk(st.value)):
             if any(n in seen for n in cfg.nodes(st)):
                 bad.append("line %d: %s" % (st.lineno, norm(st)))
-    ctx.ob("GeoIndex.query.deshuffle", bool(D) and not bad and not wrong,
+    ctx.ob("GeoIndex.query.deshuffle" + suffix, bool(D) and not bad and not wrong,
            "returns of pairs reachable without `%s` while a permutation is in use: %s; other stores into pairs: %s" % (want, bad or "none", wrong or "none"),
            "every return of a non-empty pairs array with self.%s set is preceded by the forward translation of row 0 only" % perm_attr,
            node=f.node, func=f)
 
 
+def pair_builders(f, flow):
+    """Every construction of the 2 x N pair array in query(): [{name, jag, ok, transposed, fact, node, stmt}].
+    Recognised forms: np.array([[b, q] for q, bs in enumerate(J) for b in bs]).T and the accumulator loop
+    `rows = []; for q, bs in enumerate(J): rows.extend([b, q] for b in bs) | for b in bs: rows.append([b, q])` + np.array(rows).T"""
+    out = []
+
+    def elt_ok(elt, b, q, where):
+        if not isinstance(elt, (ast.List, ast.Tuple)) or len(elt.elts) != 2:
+            raise AnalysisError("query(): pair element %s is not a 2-list" % norm(elt))
+        got = [norm(e) for e in elt.elts]
+        if got == [b, q]:
+            return True
+        if got == [q, b]:
+            return False
+        raise AnalysisError("query(): pair element %s is neither [build, query] nor [query, build]" % norm(elt))
+
+    def transposed(node):
+        p_ = parent(node)
+        pp_ = parent(p_) if p_ is not None else None
+        return isinstance(p_, ast.Call) and (dotted(p_.func) or "").split(".")[-1] in ("array", "asarray") and isinstance(pp_, ast.Attribute) and pp_.attr == "T"
+    for st in flow.stmts:
+        if not (isinstance(st, ast.Assign) and isinstance(st.targets[0], ast.Name)):
+            continue
+        for comp in ast.walk(st.value):
+            if isinstance(comp, ast.ListComp) and len(comp.generators) == 2 and calls_in(comp.generators[0].iter, "enumerate"):
+                g0, g1 = comp.generators
+                if not (isinstance(g0.target, ast.Tuple) and len(g0.target.elts) == 2 and isinstance(g1.target, ast.Name)):
+                    raise AnalysisError("query(): comprehension over the jagged result has unexpected targets")
+                qv, bl = norm(g0.target.elts[0]), norm(g0.target.elts[1])
+                if norm(g1.iter) != bl or g0.ifs or g1.ifs:
+                    raise AnalysisError("query(): inner generator of the pair comprehension does not run over the build points of one query point")
+                out.append(dict(name=st.targets[0].id, jag=norm(calls_in(g0.iter, "enumerate")[0].args[0]), ok=elt_ok(comp.elt, g1.target.id, qv, comp),
+                                transposed=transposed(comp), fact=norm(comp), node=comp, stmt=st))
+    for loop in walk_no_nested(f.node):
+        if not (isinstance(loop, ast.For) and isinstance(loop.iter, ast.Call) and dotted(loop.iter.func) == "enumerate" and len(loop.iter.args) == 1
+                and isinstance(loop.target, ast.Tuple) and len(loop.target.elts) == 2):
+            continue
+        qv, bl = norm(loop.target.elts[0]), norm(loop.target.elts[1])
+        acc = elt = b = None
+        if len(loop.body) == 1 and isinstance(loop.body[0], ast.Expr) and isinstance(loop.body[0].value, ast.Call):
+            c_ = loop.body[0].value
+            if isinstance(c_.func, ast.Attribute) and c_.func.attr == "extend" and len(c_.args) == 1 and isinstance(c_.args[0], (ast.GeneratorExp, ast.ListComp)) \
+                    and len(c_.args[0].generators) == 1 and not c_.args[0].generators[0].ifs and norm(c_.args[0].generators[0].iter) == bl \
+                    and isinstance(c_.args[0].generators[0].target, ast.Name):
+                acc, elt, b = norm(c_.func.value), c_.args[0].elt, c_.args[0].generators[0].target.id
+        elif len(loop.body) == 1 and isinstance(loop.body[0], ast.For) and norm(loop.body[0].iter) == bl and isinstance(loop.body[0].target, ast.Name) \
+                and len(loop.body[0].body) == 1 and isinstance(loop.body[0].body[0], ast.Expr) and isinstance(loop.body[0].body[0].value, ast.Call):
+            c_ = loop.body[0].body[0].value
+            if isinstance(c_.func, ast.Attribute) and c_.func.attr == "append" and len(c_.args) == 1:
+                acc, elt, b = norm(c_.func.value), c_.args[0], loop.body[0].target.id
+        if acc is None:
+            raise AnalysisError("query(): loop over enumerate(%s) is not a recognised pair accumulation" % norm(loop.iter.args[0]))
+        ds = flow.defs(acc, loop)
+        if len(ds) != 1 or ds[0] == "param" or not (isinstance(ds[0], ast.Assign) and isinstance(ds[0].value, ast.List) and not ds[0].value.elts):
+            raise AnalysisError("query(): the pair accumulator %s does not start as an empty list" % acc)
+        uses = [st for st in flow.stmts if isinstance(st, ast.Assign) and isinstance(st.targets[0], ast.Name) and flow._order(st) > flow._order(loop)
+                and any(isinstance(n_, ast.Name) and n_.id == acc for n_ in ast.walk(st.value))]
+        if len(uses) != 1:
+            raise AnalysisError("query(): the pair accumulator %s is not turned into one array" % acc)
+        nm = [n_ for n_ in ast.walk(uses[0].value) if isinstance(n_, ast.Name) and n_.id == acc][0]
+        out.append(dict(name=uses[0].targets[0].id, jag=norm(loop.iter.args[0]), ok=elt_ok(elt, b, qv, loop), transposed=transposed(nm),
+                        fact="for %s in %s: %s" % (norm(loop.target), norm(loop.iter), norm(loop.body[0])[:100]), node=loop, stmt=uses[0]))
+    if not out:
+        raise AnalysisError("query(): construction of the pair array not recognised")
+    return out
+
+
 def rule_pairs(ctx):
     ctx.rule("C06.pairs", "T6", "row 0 = build index, row 1 = query index; distances flattened in the same query-major order")
     f = ctx.func(GEO, "GeoIndex.query")
-    comp = None
-    for st in walk_no_nested(f.node):
-        if isinstance(st, ast.ListComp) and len(st.generators) == 2 and calls_in(st.generators[0].iter, "enumerate"):
-            comp = st
-    ok = False
-    fact = "no two-level comprehension over the jagged result"
-    jag = None
-    if comp is not None:
-        g0, g1 = comp.generators
-        fact = norm(comp)
-        if isinstance(g0.target, ast.Tuple) and len(g0.target.elts) == 2 and isinstance(g1.target, ast.Name):
-            qv, bl = norm(g0.target.elts[0]), norm(g0.target.elts[1])
-            jag = norm(calls_in(g0.iter, "enumerate")[0].args[0])
-            ok = norm(g1.iter) == bl and isinstance(comp.elt, (ast.List, ast.Tuple)) and [norm(e) for e in comp.elt.elts] == [g1.target.id, qv] \
-                and not g0.ifs and not g1.ifs
-        # transposed to 2 x N
-        p = parent(comp)
-        pp = parent(p) if p is not None else None
-        ok = ok and isinstance(p, ast.Call) and isinstance(pp, ast.Attribute) and pp.attr == "T"
-    ctx.ob("GeoIndex.query.pairs", ok, fact, "[[build, query] for query, builds in enumerate(jagged) for build in builds].T", node=comp or f.node, func=f)
-    # distances: hstack over the jagged distances in order
     flow = Flow(f)
+    builders = pair_builders(f, flow)
+    for i_, b_ in enumerate(builders):
+        ctx.ob("GeoIndex.query.pairs" + ("" if i_ == 0 else "#%d" % (i_ + 1)), b_["ok"] and b_["transposed"], b_["fact"] + ("" if b_["transposed"] else " (not transposed)"),
+               "[[build, query] for query, builds in enumerate(jagged) for build in builds].T", node=b_["node"], func=f)
+    jags = set(b_["jag"] for b_ in builders)
+    # distances: hstack over the jagged distances in order
     okd = False
     factd = "no hstack of the jagged distances"
     for c in calls_in(f.node, ("hstack", "concatenate")):
@@ -405,22 +465,21 @@ def rule_pairs(ctx):
             for st in flow.stmts:
                 if isinstance(st, ast.Assign) and isinstance(st.targets[0], ast.Tuple) and len(st.targets[0].elts) == 2:
                     names = [norm(e) for e in st.targets[0].elts]
-                    if jag is not None and names == [jag, norm(it)]:
+                    if names[0] in jags and names[1] == norm(it):
                         src = flow.resolve(st.value, at=st)
                         okd = bool(calls_in(src, "query_radius")) or "query_radius" in norm(src)
     # pairs and distances keep the order in which they were flattened: nothing re-binds / re-orders one of them alone
-    pn = None
-    for st in flow.stmts:
-        if isinstance(st, ast.Assign) and isinstance(st.targets[0], ast.Name) and comp is not None and any(x is comp for x in ast.walk(st.value)):
-            pn = st.targets[0].id
-    if pn is not None:
+    reorder, inplace = [], []
+    for b_ in builders:
+        pn = b_["name"]
         rebinds = [st for st in flow.stmts if isinstance(st, (ast.Assign, ast.AugAssign)) and
                    any(isinstance(t_, ast.Name) and t_.id == pn for t_ in (st.targets if isinstance(st, ast.Assign) else [st.target]))
-                   and not any(x is comp for x in ast.walk(st.value))]
-        reorder = [norm(st)[:80] for st in rebinds if any(isinstance(n_, ast.Call) and (dotted(n_.func) or "").split(".")[-1] in
-                                                          ("lexsort", "argsort", "sort", "unique", "flip", "roll", "permutation", "shuffle")
-                                                          for n_ in ast.walk(st.value)) or isinstance(st.value, ast.Subscript)]
-        inplace = [norm(c_)[:60] for c_ in calls_in(f.node) if isinstance(c_.func, ast.Attribute) and c_.func.attr == "sort" and norm(c_.func.value) == pn]
+                   and st is not b_["stmt"] and not any(st is o_["stmt"] for o_ in builders)]
+        reorder += [norm(st)[:80] for st in rebinds if any(isinstance(n_, ast.Call) and (dotted(n_.func) or "").split(".")[-1] in
+                                                           ("lexsort", "argsort", "sort", "unique", "flip", "roll", "permutation", "shuffle")
+                                                           for n_ in ast.walk(st.value)) or isinstance(st.value, ast.Subscript)]
+        inplace += [norm(c_)[:60] for c_ in calls_in(f.node) if isinstance(c_.func, ast.Attribute) and c_.func.attr == "sort" and norm(c_.func.value) == pn]
+    if True:
         ctx.ob("GeoIndex.query.order", not reorder and not inplace, "re-orderings of the pair columns: %s" % ((reorder + inplace) or "none"),
                "pair k and distance k describe the same pair: the pair array is not sorted / permuted after it was flattened", node=f.node, func=f)
     ctx.ob("GeoIndex.query.distances", okd, factd, "np.hstack over the jagged distances of the same query_radius result, in query order, "
@@ -470,7 +529,28 @@ def rule_metric(ctx):
         t = norm(v)
         narrow = [x for x in NARROW if x in t]
         if m == "minkowski":
-            ok = t == want and not narrow
+            # np.column_stack(G) or np.column_stack((G[0], G[1], G[2])) with G = geocentric2cart bound to (earth_radius, lat, lon)
+            from ..calls import bind_args
+            g = ctx.func("typhon/geodesy.py", "geocentric2cart")
+            if narrow:
+                ctx.ob("GeoIndex._to_metric[%s]" % m, False, "returns %s  [narrowing cast %s]" % (t, narrow), want + " in double precision", node=r, func=f)
+                continue
+            if not (isinstance(v, ast.Call) and (dotted(v.func) or "").split(".")[-1] == "column_stack" and len(v.args) == 1 and not v.keywords):
+                raise AnalysisError("_to_metric[minkowski]: the returned value %s is not a column_stack" % t[:80])
+            a_ = v.args[0]
+            if isinstance(a_, (ast.Tuple, ast.List)) and len(a_.elts) == 3 and all(isinstance(e_, ast.Subscript) for e_ in a_.elts) \
+                    and len(set(norm(e_.value) for e_ in a_.elts)) == 1:
+                idx = [const_value(e_.slice) for e_ in a_.elts]
+                if sorted(idx) != [0, 1, 2]:
+                    raise AnalysisError("_to_metric[minkowski]: columns %s" % idx)
+                order_ok = idx == [0, 1, 2]
+                a_ = a_.elts[0].value
+            else:
+                order_ok = True
+            if not (isinstance(a_, ast.Call) and (dotted(a_.func) or "").split(".")[-1] == "geocentric2cart"):
+                raise AnalysisError("_to_metric[minkowski]: the stacked columns %s are not the result of geocentric2cart" % norm(a_)[:80])
+            bound = {k_: str(norm(x_)) for k_, x_ in bind_args(a_, g).items()}
+            ok = order_ok and bound == dict(zip(g.params, ("earth_radius", lat, lon))) and not narrow
         else:
             ok = t in ("np.radians(np.column_stack([%s, %s]))" % (lat, lon), "np.deg2rad(np.column_stack([%s, %s]))" % (lat, lon),
                        "np.column_stack([np.radians(%s), np.radians(%s)])" % (lat, lon),
